@@ -2,7 +2,7 @@
    DecoderError, and the table in force is untouched.  Main theorem proved in proofs/DecoderInv.v. *)
 From Coq Require Import String List ZArith NArith Bool.
 Import ListNotations.
-From Selfies Require Import Base Generated Lex Atoms Grammar Compat Decoder Config History StateFacts DecoderBasics CompatFacts ConfigFacts DecoderInv DecoderSum TokFacts.
+From Selfies Require Import Base Generated Lex Atoms Grammar Compat Decoder Config History StateFacts DecoderBasics CompatFacts ConfigFacts DecoderInv DecoderSum TokFacts CompatTotal.
 Local Open Scope string_scope.
 Local Open Scope Z_scope.
 
@@ -31,7 +31,7 @@ Proof. exact derive_rejects. Qed.
    refuses the isotope / H-count / charge digits (more than 4300 of them: known finding F-C08-int-digits);
    the model has no recursion limit, so RecursionError (known finding F-C08-recursion, raised by the
    recursive writer at ~1000 nested atoms) is outside this statement and is recorded as modelled-not-proved.
-   compatible=False; the compatible=True front end is covered by the correspondence only. *)
+   compatible=False here; both flags below (C08_decoder_total_short_symbols_any_flag). *)
 Theorem C08_decoder_total_partial : forall T s attribute,
   (exists c, assoc (lit "?") T = Some c) -> digits_ok s ->
   (exists out, decoder T s false attribute = Ok out) \/ decoder T s false attribute = Err DecoderError.
@@ -64,6 +64,25 @@ Theorem C08_decoder_total_any_flag_partial : forall T s compat attribute,
   (exists out, decoder T s compat attribute = Ok out) \/ decoder T s compat attribute = Err DecoderError.
 Proof. exact decoder_total_ok_c. Qed.
 
+(* ... and for BOTH flags that condition follows from the same condition on the input string: the legacy front end
+   (compatibility.py: table lookup, re-parsing and re-printing of [..expl] atoms) raises nothing but ValueError,
+   which the tokenizer turns into DecoderError, and the modern spelling it produces is never longer than the
+   legacy one (proofs/CompatTotal.v) *)
+Theorem C08_decoder_total_short_symbols_any_flag : forall T s compat attribute,
+  (exists c, assoc (lit "?") T = Some c) -> symbols_short s ->
+  (exists out, decoder T s compat attribute = Ok out) \/ decoder T s compat attribute = Err DecoderError.
+Proof. intros T s compat attribute Hq Hs. apply decoder_total_ok_c; [exact Hq|]. now apply frags_ok_of_symbols. Qed.
+
+Example C08_legacy_example :
+  let s := lit "[C][Cexpl][=N+expl][Branch1_2][C][O][C@@Hexpl][F].[Fe++expl][Expl=Ring1][C]" in
+  symbols_short s /\ exists out, decoder default_constraints s true false = Ok out.
+Proof.
+  split.
+  - intros frag t Hf Ht. right. vm_compute in Hf.
+    repeat (destruct Hf as [<-|Hf]; [vm_compute in Ht; repeat (destruct Ht as [<-|Ht]; [vm_compute; discriminate|]); destruct Ht|]). destruct Hf.
+  - eexists. vm_compute. reflexivity.
+Qed.
+
 (* digits_ok is not a hidden assumption about "nice" strings: it holds of garbage too *)
 Example C08_digits_ok_example :
   digits_ok (lit "[C][=N+1][Branch1][junk][[Ring1].[13CH2-1]]][=C][Ring9][O").
@@ -86,3 +105,4 @@ Print Assumptions C08_table_untouched.
 Print Assumptions C08_decoder_total_short_symbols.
 Print Assumptions C08_decoder_total_short_string.
 Print Assumptions C08_decoder_total_any_flag_partial.
+Print Assumptions C08_decoder_total_short_symbols_any_flag.
